@@ -28,6 +28,36 @@ NOTES = ("Every check: python3 run.py Cxx --tier quick|thorough. Lean theorems a
 NOT_APPLICABLE = {}
 
 CHECKS = {
+    "C01": {
+        "text": "Lean theorems: direct_correct - the direct (non-resumable) translation of GV.Ctrl statements (while(true)/post-before-"
+                "continue/switch(0) wrapper/JS labels, transcribed from statements.go) into a MiniJS with completion semantics preserves the "
+                "reference semantics for every well-formed statement, store and interpretation of the primitives; desugar_once - op-assign "
+                "and inc/dec desugaring over nested lvalues evaluates each side-effecting operand once, in source order, and stores the "
+                "Go-spec result; names_distinct_plain - non-minified name allocation (name, name$1, ...) gives pairwise distinct, never "
+                "reserved names for every scope history (under RenderInj, discharged for ASCII identifiers); a regenerated-facts "
+                "obligation checks the extracted reservedKeywords against the ECMAScript reserved words and the globals the generator emits "
+                "unqualified. Tied by broad generated programs (accepted by the compiler, node --check, Node trace = native Go = Lean "
+                "model), the emitted direct-mode skeleton and desugaring temporaries, and the real newVariable through the C16 hook.",
+        "note": "translateExpr, goto, defer, flattened functions (C02), 'no internal error' and 'valid JS' are observed on generated programs, not "
+                "proved. 5 known findings: console / Number / Uint8Array shadowing, tuple-assignment operand order, panic before the "
+                "right-hand side is evaluated.",
+        "technique": "Lean 4 proof (simulation by induction on the reference derivation; allocator invariant) + regenerated-facts obligation + three-way program traces + artefact skeleton ties",
+    },
+    "C13": {
+        "text": "Lean theorems per family of JS-backed overrides: math/bits Mul32/Add32 for all operands, Div32/Rem32 panic spec and the "
+                "Knuth-D digit estimate exact for all digits; unicode `to`: the override's binary search equals a linear scan on every sorted "
+                "non-overlapping table (the real CaseRanges and Turkish tables are re-extracted on every run and decided sorted by a "
+                "regenerated-facts obligation); sync/atomic cell operations and Value (CompareAndSwap partial + counterexample); nosync "
+                "refines the sequential specification of sync for every history (panics exactly where sync panics, blocks or throws); "
+                "math: bit reinterpretation, sign/class tables, Floor/Ceil = the ECMAScript definition for all 2^64 patterns, Trunc/Modf "
+                "partial with proved refutations. Tied by compiled table programs under Node vs native Go vs the Lean driver (float bits "
+                "observed through a DataView), nosync natively vs the driver vs the real sync in child processes, exhaustive unicode.To "
+                "over all runes in the thorough tier, and Decl.Blocking == false for every function of the compiled sync/atomic archive.",
+        "note": "div32_full (normalisation bookkeeping) stated, not proved; Ldexp/Frexp/Mod/Remainder and transcendental special cases are "
+                "compared compiled-vs-native only; NaN sign treated as payload. 5 known findings (Trunc x2, Modf x2, "
+                "atomic.Value.CompareAndSwap(nil, .)).",
+        "technique": "Lean 4 proof + regenerated-facts obligation (unicode tables) + differential correspondence (compiled programs vs native Go; nosync vs real sync)",
+    },
     "C08": {
         "text": "Lean theorems: every run-time check (index, 2/3-index slicing via $subslice, $substring, $makeSlice, $sliceToGoArray, nil-map "
                 "store, integer divide and remainder, send/close, $interfaceIsEqual, $assertType), transcribed from the prelude / the emitted "
